@@ -67,6 +67,7 @@ class YosysBehavioralRTLIRToVVisitorL2(
     inc_op   = '-' if node.step._value < 0 else '+'
 
     step_abs = s.visit( node.step )
+    guard    = ''
     if node.step._value < 0:
       if step_abs[0] == '-':
         step_abs = step_abs[1:]
@@ -74,15 +75,18 @@ class YosysBehavioralRTLIRToVVisitorL2(
         # The step is a negative constant, not a negated literal: its
         # translation is a two's complement and not a magnitude
         step_abs = str( -int( node.step._value ) )
+      # The counter is unsigned: stepping below zero wraps it around to a
+      # value above its start value instead of ending the loop
+      guard = f" && {loop_var} <= {start}"
 
     for stmt in node.body:
       body.extend( s.visit( stmt ) )
     make_indent( body, 1 )
 
     for_begin = \
-      'for ( {v} = {s}; {v} {comp} {t}; {v} = {v} {inc} {stp} ){begin}'.format(
+      'for ( {v} = {s}; {v} {comp} {t}{guard}; {v} = {v} {inc} {stp} ){begin}'.format(
       v = loop_var, s = start, t = end, stp = step_abs,
-      comp = cmp_op, inc = inc_op, begin = begin
+      comp = cmp_op, inc = inc_op, begin = begin, guard = guard
     )
 
     # Assemble for statement
